@@ -179,7 +179,12 @@ char* iwftoa(long double n, char s[static IWNUMBUF_SIZE]) {
       if (m < 0) {
         m -= 1;
       }
-      n = n / pow(10.0, m);
+      if (m < -323) {
+        // pow(10.0, m) underflows to 0 for the smallest denormals: n became inf and the digit loop below never ended
+        n = n * 1e300L / powl(10.0L, m + 300);
+      } else {
+        n = n / pow(10.0, m);
+      }
       m1 = m;
       m = 0;
     }
